@@ -409,6 +409,8 @@ def run(ctx):
     _global_phase_controlled(ctx, repo)
     control_values_representation_rule(ctx, 'C04.g')
     give_up_values_rule(ctx, 'C04.h')
+    control_values_are_ints_rule(ctx, 'C04.i')
+    ctx.decided.append('C04.i the constructors of the control-value classes store plain ints (the stored values are used as numpy indices, where a bool is a mask)')
     ctx.decided.append('C04.h protocol functions exclude both documented give-up values (None and NotImplemented) of _unitary_/_mixture_/_apply_unitary_ before using a result')
     ctx.decided.append('C04.g stored control values are read element-wise only when they are known to be a ProductOfSums')
 
@@ -547,25 +549,38 @@ def control_values_representation_rule(ctx, rid='C04.g'):
                 use = 'unpacked'
             if use is None:
                 continue
-            fn = p
-            while fn in par and not isinstance(fn, (ast.FunctionDef, ast.AsyncFunctionDef)):
-                fn = par[fn]
             txt = ast.unparse(n)
-            guarded = False
-            for a, pol in dominating_atoms(par, n, fn if isinstance(fn, (ast.FunctionDef, ast.AsyncFunctionDef)) else None):
-                if pol and isinstance(a, ast.Call) and call_name(a) == 'isinstance' and len(a.args) == 2 and ast.unparse(a.args[0]) == txt \
-                        and ast.unparse(a.args[1]).split('.')[-1] == 'ProductOfSums':
-                    guarded = True
-            # conjunction in the same boolean expression: isinstance(x.control_values, ProductOfSums) and x.control_values[-1] == ...
-            q = n
-            while q in par and not isinstance(par[q], ast.stmt):
-                pp = par[q]
-                if isinstance(pp, ast.BoolOp) and isinstance(pp.op, ast.And):
-                    for v in pp.values[:pp.values.index(q)] if q in pp.values else []:
-                        if isinstance(v, ast.Call) and call_name(v) == 'isinstance' and len(v.args) == 2 and ast.unparse(v.args[0]) == txt \
-                                and ast.unparse(v.args[1]).split('.')[-1] == 'ProductOfSums':
-                            guarded = True
-                q = pp
+
+            def enclosing(x):
+                while x in par and not isinstance(x, (ast.FunctionDef, ast.AsyncFunctionDef)):
+                    x = par[x]
+                return x if isinstance(x, (ast.FunctionDef, ast.AsyncFunctionDef)) else None
+
+            def is_pos_test(a):
+                return isinstance(a, ast.Call) and call_name(a) == 'isinstance' and len(a.args) == 2 and ast.unparse(a.args[0]) == txt \
+                    and ast.unparse(a.args[1]).split('.')[-1] == 'ProductOfSums'
+
+            def under_test(x, depth=0):
+                f = enclosing(x)
+                for a, pol in dominating_atoms(par, x, f):
+                    if pol and is_pos_test(a):
+                        return True
+                # conjunction in the same boolean expression: isinstance(x.control_values, ProductOfSums) and x.control_values[-1] == ...
+                q = x
+                while q in par and not isinstance(par[q], ast.stmt):
+                    pp = par[q]
+                    if isinstance(pp, ast.BoolOp) and isinstance(pp.op, ast.And) and q in pp.values and any(is_pos_test(v) for v in pp.values[:pp.values.index(q)]):
+                        return True
+                    q = pp
+                # a private helper of the class, reading self.control_values: judged at each of its call sites
+                if f is not None and f.name.startswith('_') and not f.name.startswith('__') and txt.startswith('self.') and depth < 2:
+                    sites = [c for c in ast.walk(m.tree) if isinstance(c, ast.Call) and isinstance(c.func, ast.Attribute) and c.func.attr == f.name
+                             and isinstance(c.func.value, ast.Name) and c.func.value.id == 'self']
+                    if sites and all(under_test(c, depth + 1) for c in sites):
+                        return True
+                return False
+            fn = enclosing(p)
+            guarded = under_test(n)
             name = getattr(fn, 'name', '?')
             ctx.ob(rid, f'{m.name}.{name}:{txt}:{use}', guarded, '' if guarded else
                    f'`{txt}` is {use} without a dominating isinstance(..., ProductOfSums) test: for sum-of-products control values each element is a joint assignment of all '
@@ -612,3 +627,60 @@ def give_up_values_rule(ctx, rid='C04.h'):
                 ok = {'NotImplemented', 'None'} <= seen
                 ctx.ob(rid, f'{m.name}.{fn.name}:{magic}->{res}', ok, '' if ok else
                        f'the result of {magic}() is only compared with {sorted(seen) or "nothing"}: the other documented give-up value is used as if it were a result', m.rel, s_.lineno)
+
+
+# ---------------------------------------------------------------------------------------------------------------------
+# C04.i  Control values end up as numpy indices (`tensor[(.., v, ..)] = sub_tensor` in ControlledOperation._extend_matrix,
+# `rads[hot] = angle` in ControlledGate._decompose_with_context_), where a Python bool is a *mask*, not the position 0 / 1.
+# `True == 1` makes the two spellings equal objects, so they must also describe the same matrix: the constructors of the
+# control-value classes store plain ints.
+def control_values_are_ints_rule(ctx, rid='C04.i'):
+    repo = ctx.repo
+    ctx.rule(rid, 'control values are stored as plain ints: in __init__ of every concrete AbstractControlValues class, each value taken from the caller\'s data '
+             '(a comprehension variable over the data) is only iterated, type-tested, or handed to int() before it is stored - the stored tuples are later used as numpy indices, '
+             'where True / False select by mask: cirq.unitary(ControlledGate(Y, control_values=[True])) and cirq.mixture disagree with apply_unitary and with the equal gate '
+             'control_values=[1]', floor=2, style='EFF')
+    base = repo.cls('cirq.ops.control_values.AbstractControlValues')
+    n = 0
+    for ci in repo.subclasses(base):
+        if ci is base or '__init__' not in ci.methods or ci.mod.rel.endswith('_test.py'):
+            continue
+        fn = ci.methods['__init__']
+        params = {a.arg for a in fn.args.args + fn.args.kwonlyargs if a.arg != 'self'}
+        par = ci.mod.parents()
+        for st in ast.walk(fn):
+            if not (isinstance(st, (ast.Assign, ast.AnnAssign)) and st.value is not None):
+                continue
+            tgts = st.targets if isinstance(st, ast.Assign) else [st.target]
+            if not any(isinstance(t, ast.Attribute) and isinstance(t.value, ast.Name) and t.value.id == 'self' for t in tgts):
+                continue
+            comps = [g for x in ast.walk(st.value) if isinstance(x, (ast.ListComp, ast.SetComp, ast.GeneratorExp, ast.DictComp)) for g in x.generators]
+            # comprehension variables that (transitively) range over a parameter
+            vars_ = set()
+            grow = True
+            while grow:
+                grow = False
+                for g in comps:
+                    src = {x.id for x in ast.walk(g.iter) if isinstance(x, ast.Name)}
+                    if src & (params | vars_):
+                        for t in ast.walk(g.target):
+                            if isinstance(t, ast.Name) and t.id not in vars_:
+                                vars_.add(t.id)
+                                grow = True
+            if not vars_:
+                continue
+            n += 1
+            raw = []
+            for x in ast.walk(st.value):
+                if not (isinstance(x, ast.Name) and isinstance(x.ctx, ast.Load) and x.id in vars_):
+                    continue
+                p = par.get(x)
+                if isinstance(p, ast.comprehension) and p.iter is x:
+                    continue
+                if isinstance(p, ast.Call) and call_name(p) in ('int', 'isinstance', 'len') and x in p.args:
+                    continue
+                raw.append(x)
+            ctx.ob(rid, f'{ci.qual}.__init__:{ast.unparse(tgts[0])}', not raw, '' if not raw else
+                   f'`{ast.unparse(par.get(raw[0], raw[0]))}` stores the caller\'s value `{raw[0].id}` as it came: a bool stays a bool and is later used as a numpy mask', ci.mod.rel, st.lineno)
+    if n == 0:
+        raise AnalysisError('no control-values constructor stores values taken from its data parameter')
